@@ -133,6 +133,10 @@ func runOpShared(name string, attrs []Attr, inputs []*TJ, outNames []string, sha
 			outNames = []string{"out0"}
 		}
 		node := mkNode(name, attrs, inNames, outNames)
+		edited := false
+		if len(attrs) > 0 && share == nil && inputLayout == "" {
+			edited = priorDecodingOfEditedNode(name, node, inputs)
+		}
 		if err := op.Init(node); err != nil {
 			r := errResult(err)
 			r.Extra = "init"
@@ -182,6 +186,7 @@ func runOpShared(name string, attrs []Attr, inputs []*TJ, outNames []string, sha
 		for i := range orig {
 			res.Mut = append(res.Mut, diffSnap(i, snaps[i], snapshot(orig[i]))...)
 		}
+		res.Edited = edited
 		if res.Status == "ok" && share == nil && inputLayout == "" {
 			reuseCounter++
 			if reuseEvery > 0 && reuseCounter%reuseEvery == 0 {
@@ -335,6 +340,126 @@ func reuseProbe(name string, node *onnx.NodeProto, inputs []*TJ, fresh *Result) 
 		}
 	}
 	return bad
+}
+
+// priorDecodingOfEditedNode: a caller may keep a NodeProto around, edit its attributes in place and
+// build an operator from it again. Before the real Init the very same NodeProto / AttributeProto /
+// TensorProto OBJECTS are decoded once by a throw-away operator while they hold other contents, then
+// the contents of this case are put back in place: what the operator answers must depend on what the
+// node holds now, not on what the object held when it was first seen.
+func priorDecodingOfEditedNode(name string, node *onnx.NodeProto, inputs []*TJ) bool {
+	total := 0
+	for _, t := range inputs {
+		if t != nil {
+			total += nelem(t.Shape)
+		}
+	}
+	if total > 4096 {
+		return false
+	}
+	type saved struct {
+		i      int64
+		f      float32
+		s      []byte
+		ints   []int64
+		floats []float32
+		tp     *onnx.TensorProto
+	}
+	sv := make([]saved, len(node.Attribute))
+	changed := false
+	for k, a := range node.Attribute {
+		sv[k] = saved{i: a.I, f: a.F, s: a.S, ints: a.Ints, floats: a.Floats}
+		switch a.Type {
+		case onnx.AttributeProto_INT:
+			a.I++
+			changed = true
+		case onnx.AttributeProto_FLOAT:
+			a.F += 1
+			changed = true
+		case onnx.AttributeProto_STRING:
+			a.S = append(append([]byte{}, a.S...), 'x')
+			changed = true
+		case onnx.AttributeProto_INTS:
+			alt := make([]int64, len(a.Ints))
+			for i, v := range a.Ints {
+				alt[i] = v + 1
+			}
+			a.Ints = alt
+			changed = true
+		case onnx.AttributeProto_FLOATS:
+			alt := make([]float32, len(a.Floats))
+			for i, v := range a.Floats {
+				alt[i] = v + 1
+			}
+			a.Floats = alt
+			changed = true
+		case onnx.AttributeProto_TENSOR:
+			if a.T == nil {
+				continue
+			}
+			sv[k].tp = &onnx.TensorProto{}
+			copyTP(sv[k].tp, a.T)
+			alt := &onnx.TensorProto{}
+			copyTP(alt, a.T)
+			alt.FloatData = bump(a.T.FloatData)
+			alt.Int32Data = bump(a.T.Int32Data)
+			alt.Int64Data = bump(a.T.Int64Data)
+			alt.DoubleData = bump(a.T.DoubleData)
+			alt.Uint64Data = bump(a.T.Uint64Data)
+			if len(a.T.RawData) > 0 {
+				alt.RawData = make([]byte, len(a.T.RawData))
+				for i, b := range a.T.RawData {
+					alt.RawData[i] = b ^ 1
+				}
+			}
+			copyTP(a.T, alt)
+			changed = true
+		}
+	}
+	if !changed {
+		return false
+	}
+	func() {
+		defer func() { _ = recover() }()
+		op, err := opset13.GetOperator(name)
+		if err != nil || op.Init(node) != nil {
+			return
+		}
+		ts := make([]tensor.Tensor, len(inputs))
+		for i, t := range inputs {
+			ts[i] = mkTensor(t)
+		}
+		vts, err := op.ValidateInputs(ts)
+		if err != nil {
+			return
+		}
+		_, _ = op.Apply(vts)
+	}()
+	for k, a := range node.Attribute {
+		a.I, a.F, a.S, a.Ints, a.Floats = sv[k].i, sv[k].f, sv[k].s, sv[k].ints, sv[k].floats
+		if sv[k].tp != nil {
+			copyTP(a.T, sv[k].tp)
+		}
+	}
+	return true
+}
+
+func bump[T int32 | int64 | uint64 | float32 | float64](xs []T) []T {
+	if xs == nil {
+		return nil
+	}
+	out := make([]T, len(xs))
+	for i, v := range xs {
+		out[i] = v + 1
+	}
+	return out
+}
+
+// copyTP copies the contents of src INTO the object dst (dst keeps its identity).
+func copyTP(dst, src *onnx.TensorProto) {
+	dst.Dims, dst.DataType, dst.Name = src.Dims, src.DataType, src.Name
+	dst.FloatData, dst.Int32Data, dst.Int64Data = src.FloatData, src.Int32Data, src.Int64Data
+	dst.DoubleData, dst.Uint64Data, dst.StringData, dst.RawData = src.DoubleData, src.Uint64Data, src.StringData, src.RawData
 }
 
 func sameObj(a, b tensor.Tensor) bool {
